@@ -35,6 +35,7 @@ def required_cells(tier):
     req["polygon:duplicates"] = 100
     req["polygon:negated-then-moved"] = 100
     req["polygon:receiver-is-a-negation"] = 50
+    req["polygon:constructed-with-reverse=True"] = 300
     req["history:second-body-from-the-same-face-objects-moved-away"] = 30 if q else 600
     req["history:rebuilt-from-its-own-faces-moved-into-place"] = 30 if q else 600
     req["polyhedron"] = 300 if q else 6000
@@ -55,7 +56,7 @@ def cases(rng, budget, widx, nworkers, tier):
             m = len(d[1])
             if m <= 5 and rng.random() < 0.4:
                 for p in itertools.permutations(range(m)):
-                    yield {"k": "PG", "d": d, "order": list(p), "exh": True}
+                    yield {"k": "PG", "d": d, "order": list(p), "exh": True, "rev": rng.random() < 0.3}
             else:
                 for _ in range(4):
                     p = list(range(m))
@@ -63,7 +64,7 @@ def cases(rng, budget, widx, nworkers, tier):
                     if rng.random() < 0.4:
                         p += [rng.randrange(m) for _ in range(rng.randint(1, 3))]
                         rng.shuffle(p)
-                    c_ = {"k": "PG", "d": d, "order": p}
+                    c_ = {"k": "PG", "d": d, "order": p, "rev": rng.random() < 0.25}
                     if rng.random() < 0.3:
                         c_["hv"] = [rng.randint(-6, 6) for _ in range(3)]
                         c_["negrecv"] = rng.choice((0, 0, 1, 2))       # the polygon that is moved is itself -p / -(-p)
@@ -129,6 +130,20 @@ def _check_polygon(G, mu, pg, want_pts, key, tol=1e-7):
     if not _match_sets(got, want_pts, tol):
         mu.fail(key + ":vertex-set", "polygon has %d vertices, the input has %d distinct ones" % (len(got), len(want_pts)))
         return
+    # the stored cycle is the boundary cycle (consecutive vertices are neighbours on the boundary), counter-clockwise
+    # about the stored normal
+    m = len(want_pts)
+    if m >= 3 and len(got) == m:
+        idx = [min(range(m), key=lambda j: K.norm(K.sub(want_pts[j], g))) for g in got]
+        steps = {(idx[(i + 1) % m] - idx[i]) % m for i in range(m)}
+        if steps not in ({1}, {m - 1}):
+            mu.fail(key + ":not-the-boundary-cycle", "stored vertex order %r (indices into the convex boundary order) is not a boundary cycle" % (idx,))
+            return
+        nrm = tuple(float(c) for c in pg.plane.n)
+        turn = K.dot(K.cross(K.sub(got[1], got[0]), K.sub(got[2], got[1])), nrm)
+        if not turn > 0:
+            mu.fail(key + ":cycle-not-counter-clockwise-about-the-normal", "the stored cycle turns clockwise about the stored normal")
+            return
     neg, exc, imp = M.call(lambda p: -p, pg)
     if exc is not None:
         mu.fail(key + ":neg-raises-" + M.classify_exc(exc), "-polygon raised %r" % exc)
@@ -212,7 +227,11 @@ def judge(case):
         hv = case.get("hv")
         shift = K.mul(tuple(F(c) for c in hv), -1) if hv else (0, 0, 0)
         pts = tuple(G.Point(*[float(c) for c in K.add(vs[i], shift)]) for i in order)
-        pg, exc, imp = M.call(lambda p: G.ConvexPolygon(p), pts)
+        if case.get("rev"):
+            mu.cell("polygon:constructed-with-reverse=True")
+            pg, exc, imp = M.call(lambda p: G.ConvexPolygon(p, reverse=True), pts)
+        else:
+            pg, exc, imp = M.call(lambda p: G.ConvexPolygon(p), pts)
         if exc is not None:
             mu.fail("PG:ctor-raises-" + M.classify_exc(exc), "ConvexPolygon(valid convex vertices) raised %s: %s" % (type(exc).__name__, exc))
             return mu.result()
@@ -228,10 +247,16 @@ def judge(case):
                     mu.cell("polygon:receiver-is-a-negation")
                 q0 = -pg
                 hash(pg), hash(q0), pg == q0
-                pg.move(G.Vector(*[float(c) for c in hv]))
+                ret = pg.move(G.Vector(*[float(c) for c in hv]))
             except Exception as e:
                 mu.fail("PG:history-raises-" + type(e).__name__, "negate / hash / move raised %r" % e)
                 return mu.result()
+            # the polygon returned by move is the moved polygon, orientation included
+            _check_polygon(G, mu, ret, [K.fl(v) for v in vs], "PG:returned-by-move")
+            if mu.viol is None:
+                n_r, n_p = tuple(float(c) for c in ret.plane.n), tuple(float(c) for c in pg.plane.n)
+                if K.norm(K.sub(n_r, n_p)) > 1e-9:
+                    mu.fail("PG:returned-by-move:normal-differs-from-the-receiver's", "move() returned a polygon with normal %r, the moved receiver has %r" % (n_r, n_p))
             # the negation taken before the move stays where it was, a valid polygon of its own
             _check_polygon(G, mu, q0, [K.fl(K.add(v, shift)) for v in vs], "PG:negation-taken-before-the-original-moved")
         _check_polygon(G, mu, pg, [K.fl(v) for v in vs], "PG")
